@@ -2,4 +2,4 @@
 From Coq Require Import ZArith ExtrOcamlBasic.
 Require Import ZV.Model.Templ.
 Extraction "model.ml" Z.add Z.mul Z.opp Z.div_eucl Z.of_nat Z.to_nat Z.compare
-  value_eqb sq_model gen_sq run subst elems is_splice reify wf view hshort macro_expand.
+  value_eqb sq_model gen_sq run subst elems is_splice reify wf view hshort macro_expand strip.
